@@ -362,7 +362,7 @@ Section Inv.
     core s0 -> chk ch0 s0 -> is_decimal ch0 = true -> (length (s_rest s0) < F)%nat ->
     sres_ok (scan_number F src0 tokpos ch0 sd s0) (number_post s0).
   Proof.
-    intros src0 tokpos ch0 sd s0 Hc Hk Hd Hfuel. unfold scan_number.
+    intros src0 tokpos ch0 sd s0 Hc Hk Hd Hfuel. unfold scan_number, scan_intpart, scan_fraction, scan_exponent.
     pose proof (ext_refl s0 Hc) as He0.
     (* phase 1 *)
     eapply sres_ok_bind with
